@@ -1,8 +1,8 @@
 package kv
 
 import (
-	"bytes"
 	"bufio"
+	"bytes"
 	"errors"
 	"fmt"
 	"math/rand/v2"
